@@ -915,6 +915,16 @@ func (m *Model) ruleExpArm(r *Results, rule string, arms []*ssa.Function) {
 					detail = fmt.Sprintf("with current deadline %s and new expiry %s it, the timer is %s", map[bool]string{true: "unset (0)", false: "set"}[k.curZero], map[int]string{-1: "before", 0: "equal to", 1: "after"}[k.rel], map[bool]string{true: "re-armed", false: "not re-armed"}[got])
 				}
 			}
+			// ... and the setter is reached only through this comparison: a caller that goes to the
+			// setter directly replaces an earlier deadline (another collection's) by a later one
+			if setter := setCall.Common().StaticCallee(); setter != nil && setter != fn {
+				bad := m.escapesViaSet(setter, map[*ssa.Function]bool{fn: true}, true, map[*ssa.Function]bool{})
+				who := ""
+				if bad != nil {
+					who = m.declName(bad)
+				}
+				r.check(bad == nil, rule, "c / "+m.declName(setter)+" / deadline set only through the earlier-only comparison", m.instrPos(setCall), "every live call chain to the function that sets the deadline passes through the comparison with the current deadline", "the deadline is set on a call chain from "+who+" that does not pass through the comparison with the current deadline: a later expiry replaces an earlier pending one (the timer is shared by all collections), and the earlier documents outlive their expiry until something else re-arms the timer")
+			}
 			r.check(okAll, rule, key, m.instrPos(setCall), "re-armed exactly when nothing is scheduled or the new expiry is earlier", "the timer is not re-armed exactly when (current deadline == 0) or (new expiry < current deadline): "+detail)
 		}
 	}
@@ -1235,6 +1245,53 @@ func (m *Model) ruleCHECKPOINT(r *Results) {
 		return
 	}
 	name := m.declName(fn)
+	// the delivery loop takes the CAS of EVERY event it delivers as progress, so only events that
+	// describe a document may carry one: a feed event built outside the event converter (the
+	// backfill markers) has no CAS field set
+	{
+		nLit := 0
+		for _, g := range m.Funcs {
+			if g == m.A.Converter || !m.inPkg(g) {
+				continue
+			}
+			for _, b := range g.Blocks {
+				for _, ins := range b.Instrs {
+					al, ok := ins.(*ssa.Alloc)
+					if !ok || al.Comment != "complit" {
+						continue
+					}
+					pt, ok := al.Type().Underlying().(*types.Pointer)
+					if !ok || !isNamed(pt.Elem(), sgbucketPath, "FeedEvent") {
+						continue
+					}
+					nLit++
+					var casStore *ssa.Store
+					for _, ref := range *al.Referrers() {
+						fa, ok := ref.(*ssa.FieldAddr)
+						if !ok || fieldOf(fa).Name() != "Cas" {
+							continue
+						}
+						for _, r2 := range *fa.Referrers() {
+							if st, ok := r2.(*ssa.Store); ok && st.Addr == ssa.Value(fa) {
+								if c, isC := st.Val.(*ssa.Const); isC && isZeroValueConst(c) {
+									continue
+								}
+								casStore = st
+							}
+						}
+					}
+					pos := m.instrPos(al)
+					if casStore != nil {
+						pos = m.instrPos(casStore)
+					}
+					r.check(casStore == nil, rule, m.declName(g)+" / marker events carry no CAS", pos, "a feed event built outside the event converter has no CAS", "a feed event that does not describe a document (a backfill marker) is given a CAS: the delivery loop counts it as progress, so the checkpoint moves past mutations that were never delivered (anything that committed during the backfill, or a CAS that was drawn but not used)")
+				}
+			}
+		}
+		if nLit == 0 {
+			r.undecided(rule, "marker events", "-", "no feed event literal outside the converter (the backfill markers were confirmed by hand)")
+		}
+	}
 	// the delivered-CAS field: the uint64 field of the feed stored in the loop, directly or in a
 	// helper the loop calls
 	var store *ssa.Store
